@@ -107,12 +107,14 @@ inductive Src where
 deriving Repr, Inhabited
 
 inductive Instr where
-  | lre (name : QN) (nsdecls : List NS) (atts : List Att) (excl : List String) (body : List Instr)
+  | lre (name : QN) (nsdecls : List NS) (atts : List Att) (excl : List String) (use : List Nat) (body : List Instr)
   | element (name : QN) (ns : Option String) (body : List Instr)
   | attribute (name : QN) (ns : Option String) (value : String)
   | text
   | copyOf (k : Nat)
   | copy (k : Nat) (body : List Instr)
+  | copyAttr (k : Nat) (name : QN)      -- copy-of / for-each+copy of the attribute `name` of source element `k`
+  | useSets (ks : List Nat)             -- `use-attribute-sets` of the enclosing xsl:element / xsl:copy (first child)
 deriving Repr, Inhabited
 
 mutual
@@ -125,10 +127,20 @@ def Src.indexList (chain : List (List Att)) : List Src → List (Src × List (Li
   | k :: ks => Src.index chain k ++ Src.indexList chain ks
 end
 
+/-- one `xsl:attribute` of a top-level `xsl:attribute-set` -/
+structure SetAttr where
+  name : QN
+  ns : Option String
+  value : String
+deriving Repr, Inhabited
+
 structure Env where
   stack : List (List NS)
   parent : Handler
   nodes : List (Src × List (List Att))
+  sets : List (List SetAttr) := []          -- the stylesheet's attribute sets, by index
+  topStack : List (List NS) := []           -- namespaces stack / parent handler of an xsl:attribute inside a
+  topParent : Handler := {}                 -- top-level xsl:attribute-set
 
 structure Run where
   st : St
@@ -145,8 +157,28 @@ def cloneList (chain : List (List Att)) (s : St) : List Src → St
   | k :: ks => cloneList chain (cloneTree chain s k) ks
 end
 
+/-- namespace URI of a source attribute name: nearest `xmlns:p` in the chain of attribute lists -/
+def srcNsOf (chain : List (List Att)) (p : String) : String :=
+  if p = "" then "" else if p = "xml" then xmlURI
+  else (chain.findSome? (fun atts => (atts.find? (fun a => a.name = ⟨"xmlns", p⟩)).map (·.val))).getD ""
+
 def elementHandler (env : Env) (aliasing : Bool := true) : Handler :=
   (Handler.ctor ([] :: env.stack)).postConstruct (some env.parent) "xsl" [] aliasing
+
+/-- `ElemUse::getNextAttributeSet` … : the `xsl:attribute` children of the named sets, in order, executed against the
+element that is pending (`ElemAttributeSet` children are ordinary `ElemAttribute`s whose stylesheet context is the
+top level) -/
+def execSetAttrs (env : Env) (r : Run) : List SetAttr → Run
+  | [] => r
+  | a :: as =>
+    let h := (Handler.ctor ([] :: env.topStack)).postConstruct (some env.topParent) "xsl" [] (!r.st.v.attrNoAlias)
+    let ssNs := if a.name.pfx = "xml" then some xmlURI else h.getNamespace a.name.pfx
+    let sb := r.st.elemAttribute a.name a.ns ssNs a.value
+    execSetAttrs env { r with st := sb.1, tags := ("A:" ++ reprStr sb.2) :: r.tags } as
+
+def execSets (env : Env) (r : Run) : List Nat → Run
+  | [] => r
+  | k :: ks => execSets env (execSetAttrs env r (env.sets.getD k [])) ks
 
 mutual
 /-- one instruction; `execList … skipAttrs` is `ElemElement::executeChildElement` (the children of an
@@ -169,7 +201,8 @@ def exec (env : Env) (r : Run) : Instr → Run
     | some n =>
       let r := execList env' r false body
       { r with st := r.st.endElement n }
-  | .lre name nsdecls atts excl body =>
+  | .useSets ks => execSets env r ks
+  | .lre name nsdecls atts excl use body =>
     let stack' := nsdecls :: env.stack
     match (Handler.ctor stack').excludeTokens stack' excl with
     | none => { r with bad := true }
@@ -181,8 +214,10 @@ def exec (env : Env) (r : Run) : Instr → Run
       let xmlnsAvts : List Att :=
         if r.st.v.noXmlnsAvt then []
         else (nsdecls.filter (fun n => n.pfx = "")).map (fun n => ⟨⟨"", "xmlns"⟩, n.uri⟩)
-      let s := s.addAtts (xmlnsAvts ++ atts)
-      let r := execList { env with stack := stack', parent := h } { r with st := s, tags := "L" :: r.tags } false body
+      -- `ElemUse`: the attribute sets run before `evaluateAVTs`
+      let r1 := execSets env { r with st := s, tags := "L" :: r.tags } use
+      let s := r1.st.addAtts (xmlnsAvts ++ atts)
+      let r := execList { env with stack := stack', parent := h } { r1 with st := s } false body
       { r with st := r.st.endElement name }
   | .copyOf k =>
     match env.nodes[k - 1]? with
@@ -199,6 +234,15 @@ def exec (env : Env) (r : Run) : Instr → Run
       let s := s.copyNamespaceAttributes chain
       let r := execList envc { r with st := s, tags := "Y" :: r.tags } false body
       { r with st := r.st.endElement name }
+    | none => { r with bad := true }
+  | .copyAttr k name =>
+    match env.nodes[k - 1]? with
+    | some (_, chain) =>
+      match (chain.headD []).find? (fun a => a.name = name) with
+      | some a =>
+        let sb := r.st.cloneAttribute name (srcNsOf chain name.pfx) a.val
+        { r with st := sb.1, tags := ("CA:" ++ reprStr sb.2) :: r.tags }
+      | none => { r with bad := true }
     | none => { r with bad := true }
 def execList (env : Env) (r : Run) (skipAttrs : Bool) : List Instr → Run
   | [] => r
@@ -220,7 +264,7 @@ def resolveAliases (rootDecls : List NS) : List (String × String) → Option (L
 /-- a whole generated stylesheet: `<xsl:stylesheet rootDecls exclude-result-prefixes=rootExcl>
 <xsl:template match="/"> body </xsl:template></xsl:stylesheet>` applied to `src` -/
 def runCase (v : Variant) (rootDecls : List NS) (rootExcl : List String) (aliasPrefixes : List (String × String))
-    (src : Src) (body : List Instr) : Run :=
+    (sets : List (List SetAttr)) (src : Src) (body : List Instr) : Run :=
   match ({} : Handler).excludeTokens [rootDecls] rootExcl, resolveAliases rootDecls aliasPrefixes with
   | none, _ => { st := { v := v }, bad := true }
   | _, none => { st := { v := v }, bad := true }
@@ -229,7 +273,8 @@ def runCase (v : Variant) (rootDecls : List NS) (rootExcl : List String) (aliasP
     let sh := sh0.postConstruct none "" []
     let stack := [[], rootDecls]
     let th := (Handler.ctor stack).postConstruct (some sh) "xsl" []
-    let env : Env := { stack := stack, parent := th, nodes := Src.index [] src }
+    let env : Env := { stack := stack, parent := th, nodes := Src.index [] src, sets := sets,
+                       topStack := stack, topParent := th }
     execList env { st := { v := v } } false body
 
 end XalanModel.C14
